@@ -124,6 +124,11 @@ SymbolsExp(d, b, e) ==
                           ELSE IF extra \subseteq SymUpper(d, AddA(b, b)) THEN "rebased-twice"
                           ELSE "other"]
 
+ExportedCheck(d, b, e) == Clean(e.res) /\ ExportsOK(d, b, ObsSyms(e))
+ExportedExp(d, b, e) ==
+  IF ~Clean(e.res) THEN [part |-> "outcome"]
+  ELSE [missing |-> ExportLower(d, b) \ ObsSyms(e), extra |-> ObsSyms(e) \ ExportUpper(d, b)]
+
 PentryCheck(d, b, e) == Clean(e.res) /\ e.res.ok = ProgramEntry(d, b)
 PentryExp(d, b, e) ==
   IF ~Clean(e.res) THEN [part |-> "outcome"]
@@ -378,6 +383,7 @@ EventOK(e) ==
                             ELSE SymbolsCheck(S.desc, base, e)
     [] e.ev = "program"  -> ProgramEvOK(S.desc, base, LowerE, UpperE, e, FALSE)
     [] e.ev = "rprogram" -> ProgramEvOK(S.desc, base, LowerE, UpperE, e, TRUE)
+    [] e.ev = "exported" -> ExportedCheck(S.desc, base, e)
     [] e.ev = "pentry"   -> PentryCheck(S.desc, base, e)
     [] e.ev = "link"     -> LinkCheck(e)
     [] e.ev = "lmemory"  -> LMemoryOK(e)
@@ -400,6 +406,7 @@ Expected(e) ==
                             ELSE SymbolsExp(S.desc, base, e)
     [] e.ev = "program"  -> ProgramExp(S.desc, base, LowerE, UpperE, e, FALSE)
     [] e.ev = "rprogram" -> ProgramExp(S.desc, base, LowerE, UpperE, e, TRUE)
+    [] e.ev = "exported" -> ExportedExp(S.desc, base, e)
     [] e.ev = "pentry"   -> PentryExp(S.desc, base, e)
     [] e.ev = "link"     -> [ok |-> "every object loaded"]
     [] e.ev = "lmemory"  -> LMemoryExp(e)
